@@ -291,7 +291,7 @@ def wConfed : Input :=
 
 set_option maxRecDepth 1000000 in
 theorem witness_nexthop :
-    buildable wNexthop = true ∧ check wNexthop (run .debug wNexthop) = .fail "nexthop-differs" := by
+    buildable wNexthop = true ∧ check wNexthop (run .debug wNexthop) = .fail "nexthop-differs-ipv4-in-mp-reach" := by
   decide +kernel
 
 set_option maxRecDepth 1000000 in
@@ -307,12 +307,12 @@ theorem witness_open :
 
 set_option maxRecDepth 1000000 in
 theorem witness_partial :
-    buildable wPartial = true ∧ check wPartial (run .debug wPartial) = .fail "attribute-flags-differ" := by
+    buildable wPartial = true ∧ check wPartial (run .debug wPartial) = .fail "attribute-flags-differ-code-7" := by
   decide +kernel
 
 set_option maxRecDepth 1000000 in
 theorem witness_confed :
-    buildable wConfed = true ∧ check wConfed (run .debug wConfed) = .fail "as-path-differs" := by
+    buildable wConfed = true ∧ check wConfed (run .debug wConfed) = .fail "as-path-differs-confed-segment" := by
   decide +kernel
 
 theorem check_run_full_false : ¬ check_run_full := by
